@@ -16,7 +16,8 @@ THEOREMS = ["C09_ledger", "C09_only_addressee", "C09_only_addressee_any_state", 
             "C09_expiry_walk", "C09_expiry_not_early", "C09_expiry_when_due", "C09_expiry_timer_interval", "C09_expiry_timer_armed",
             "C09_expiry_at_most_once", "C09_expiry_removed_never_expires", "C09_check_timeout_due", "C09_check_timeout_not_early",
             "C09_check_timeout_clock_backward", "C09_expiry_test_agrees",
-            "C09_hangup_changes_nothing", "C09_call_to_hung_up_callee"]
+            "C09_hangup_changes_nothing", "C09_call_to_hung_up_callee",
+            "C09_unknown_type_changes_nothing", "C09_refused_leaves_table"]
 
 NONTRIVIAL = {"reply-delivered", "reply-refused", "noreply-disconnect", "noreply-timeout", "limit-refused", "duplicate-serial-refused",
               "fd-refused", "call-or-signal-with-rserial-delivered"}
